@@ -16,6 +16,14 @@
 (* Only the symbol table survives from one pass to the next.  One step of  *)
 (* the model = one visit (AnStmt / An).  put_symbol = do_update_symbol for *)
 (* primitive types: first writer wins, a different type is E500/E504.     *)
+(* Two CANDIDATE REPAIRS of the defects found (docs/notes-infer.md F-I1,   *)
+(* F-I2) can be switched on through the parameter fx; they only serve to   *)
+(* label a rejected-though-determined body with the repair that would make *)
+(* the algorithm accept it (known findings are matched by that label):     *)
+(*    "left"  an operand of a comparison / binary operator that is still   *)
+(*            untyped after both were analysed is analysed again with the  *)
+(*            other operand's type;                                        *)
+(*    "cast"  `e as T` does not hand T down to a variable operand.         *)
 (* The verdict afterwards is what analyzer + resolver do with P3's tree:   *)
 (* an untyped node is E580/E581/E582/E332, a poisoned one rejects, operand *)
 (* / argument / index / return types are compared (E551, E512, E503, E333).*)
@@ -49,9 +57,9 @@ VT(e) == CASE e.k = "lit"   -> IF "t" \in DOMAIN e THEN e.t ELSE IF "vt" \in DOM
 
 PrimName(t) == IF t.k = "prim" THEN t.t ELSE "#agg"
 
-RECURSIVE An(_, _, _, _, _)
+RECURSIVE An(_, _, _, _, _, _)
 \* -> [e |-> annotated expression, sym |-> symbol table]
-An(P, env, e, ctx, sym) ==
+An(fx, P, env, e, ctx, sym) ==
     CASE e.k = "lit" ->
             IF "t" \in DOMAIN e \/ ("vt" \in DOMAIN e /\ e.vt # "none") THEN [e |-> e, sym |-> sym]
             ELSE [e |-> [k |-> "lit", v |-> e.v, id |-> e.id, vt |-> FilterNaked(ctx)], sym |-> sym]
@@ -66,37 +74,44 @@ An(P, env, e, ctx, sym) ==
                     ELSE [e |-> [k |-> "var", x |-> e.x, vt |-> ctx], sym |-> Put(sym, e.x, ctx).sym]   \* simple_deref
       [] e.k = "idx" ->
             IF "vt" \in DOMAIN e /\ e.vt # "none" THEN [e |-> e, sym |-> sym]
-            ELSE LET i == An(P, env, e.i, "usize", sym)
+            ELSE LET i == An(fx, P, env, e.i, "usize", sym)
                  IN [e |-> [k |-> "idx", x |-> e.x, i |-> i.e, vt |-> PrimName(ElemOf(Lookup(env, e.x)))], sym |-> i.sym]
       [] e.k = "bin" ->
             LET cl == IF VT(e.r) # "none" THEN VT(e.r) ELSE ctx
-                l  == An(P, env, e.l, cl, sym)
-                r  == An(P, env, e.r, VT(l.e), l.sym)
-            IN [e |-> [k |-> "bin", op |-> e.op, l |-> l.e, r |-> r.e], sym |-> r.sym]
+                l  == An(fx, P, env, e.l, cl, sym)
+                r  == An(fx, P, env, e.r, VT(l.e), l.sym)
+                \* repair "left": an operand that is still untyped is analysed again with the other operand's type
+                l2 == IF "left" \in fx /\ VT(l.e) = "none" /\ VT(r.e) \notin {"none", "poison"}
+                      THEN An(fx, P, env, l.e, VT(r.e), r.sym) ELSE [e |-> l.e, sym |-> r.sym]
+            IN [e |-> [k |-> "bin", op |-> e.op, l |-> l2.e, r |-> r.e], sym |-> l2.sym]
       [] e.k = "paren" ->
-            LET i == An(P, env, e.e, ctx, sym) IN [e |-> [k |-> "paren", e |-> i.e], sym |-> i.sym]
+            LET i == An(fx, P, env, e.e, ctx, sym) IN [e |-> [k |-> "paren", e |-> i.e], sym |-> i.sym]
       [] e.k = "as" ->
-            LET i == An(P, env, e.e, e.t, sym) IN [e |-> [k |-> "as", t |-> e.t, e |-> i.e], sym |-> i.sym]
+            \* repair "cast": the target type is a hint for a naked literal operand only, never for a variable
+            LET i == An(fx, P, env, e.e, IF "cast" \in fx /\ e.e.k # "lit" THEN "none" ELSE e.t, sym)
+            IN [e |-> [k |-> "as", t |-> e.t, e |-> i.e], sym |-> i.sym]
       [] e.k = "call" ->
             LET g == FnOf(P, e.f)
-                a == An(P, env, e.args[1], PrimName(ParamTy(g.params[1])), sym)
+                a == An(fx, P, env, e.args[1], PrimName(ParamTy(g.params[1])), sym)
             IN [e |-> [k |-> "call", f |-> e.f, args |-> <<a.e>>, vt |-> PrimName(g.ret)], sym |-> a.sym]
       [] OTHER -> [e |-> e, sym |-> sym]
 
-AnCond(P, env, c, sym) ==
+AnCond(fx, P, env, c, sym) ==
     LET cl == VT(c.r)
-        l  == An(P, env, c.l, cl, sym)
-        r  == An(P, env, c.r, VT(l.e), l.sym)
-    IN [c |-> [op |-> c.op, l |-> l.e, r |-> r.e], sym |-> r.sym]
+        l  == An(fx, P, env, c.l, cl, sym)
+        r  == An(fx, P, env, c.r, VT(l.e), l.sym)
+        l2 == IF "left" \in fx /\ VT(l.e) = "none" /\ VT(r.e) \notin {"none", "poison"}
+              THEN An(fx, P, env, l.e, VT(r.e), r.sym) ELSE [e |-> l.e, sym |-> r.sym]
+    IN [c |-> [op |-> c.op, l |-> l2.e, r |-> r.e], sym |-> l2.sym]
 
 \* -> [it |-> annotated item (field sv: what the statement ended with), sym]
-AnStmt(P, env, it, sym) ==
+AnStmt(fx, P, env, it, sym) ==
     CASE it.k = "V" /\ "ty" \in DOMAIN it ->
             IF it.ty.k # "prim"
             THEN [it |-> it @@ [sv |-> "ok"], sym |-> sym]          \* the prelude array: nothing to infer
             ELSE LET p1 == Put(sym, it.x, it.ty.t)
                      declared == Get(p1.sym, it.x)
-                     v  == An(P, env, it.e, declared, p1.sym)
+                     v  == An(fx, P, env, it.e, declared, p1.sym)
                      vt == VT(v.e)
                      p2 == Put(v.sym, it.x, vt)
                  IN [it |-> [k |-> "V", x |-> it.x, ty |-> it.ty, e |-> v.e,
@@ -104,7 +119,7 @@ AnStmt(P, env, it, sym) ==
                                     ELSE IF p2.err THEN "error" ELSE Get(p2.sym, it.x)],
                      sym |-> p2.sym]
       [] it.k = "V" /\ "ty" \notin DOMAIN it ->
-            LET v  == An(P, env, it.e, Get(sym, it.x), sym)
+            LET v  == An(fx, P, env, it.e, Get(sym, it.x), sym)
                 vt == VT(v.e)
                 p  == Put(v.sym, it.x, vt)
             IN [it |-> [k |-> "V", x |-> it.x, e |-> v.e,
@@ -113,7 +128,7 @@ AnStmt(P, env, it, sym) ==
       [] it.k = "S" ->
             LET declared == Lookup(env, it.x)
                 known == IF declared.k = "node" THEN Get(sym, it.x) ELSE PrimName(StripPtr(declared))
-                v  == An(P, env, it.e, known, sym)
+                v  == An(fx, P, env, it.e, known, sym)
                 vt == VT(v.e)
                 p  == IF known = "poison" THEN [sym |-> v.sym, err |-> FALSE] ELSE Put(v.sym, it.x, vt)
             IN [it |-> [k |-> "S", x |-> it.x, e |-> v.e,
@@ -121,24 +136,24 @@ AnStmt(P, env, it, sym) ==
                                ELSE IF p.err \/ (declared.k # "node" /\ vt # known) THEN "error" ELSE "ok"],
                 sym |-> p.sym]
       [] it.k = "IG" ->
-            LET c == AnCond(P, env, it.c, sym) IN [it |-> [k |-> "IG", n |-> it.n, c |-> c.c, sv |-> "ok"], sym |-> c.sym]
+            LET c == AnCond(fx, P, env, it.c, sym) IN [it |-> [k |-> "IG", n |-> it.n, c |-> c.c, sv |-> "ok"], sym |-> c.sym]
       [] it.k = "P" ->
-            LET v == An(P, env, it.e, "none", sym) IN [it |-> [k |-> "P", e |-> v.e, sv |-> "ok"], sym |-> v.sym]
+            LET v == An(fx, P, env, it.e, "none", sym) IN [it |-> [k |-> "P", e |-> v.e, sv |-> "ok"], sym |-> v.sym]
       [] OTHER -> [it |-> it @@ [sv |-> "ok"], sym |-> sym]
 
-RECURSIVE Forward(_, _, _, _, _), Backward(_, _, _, _, _)
-Forward(P, env, items, i, acc) ==      \* acc = [items, sym]
+RECURSIVE Forward(_, _, _, _, _, _), Backward(_, _, _, _, _, _)
+Forward(fx, P, env, items, i, acc) ==      \* acc = [items, sym]
     IF i > Len(items) THEN acc
-    ELSE LET r == AnStmt(P, env, items[i], acc.sym)
-         IN Forward(P, env, items, i + 1, [items |-> Append(acc.items, r.it), sym |-> r.sym])
-Backward(P, env, items, i, sym) ==
-    IF i < 1 THEN sym ELSE Backward(P, env, items, i - 1, AnStmt(P, env, items[i], sym).sym)
+    ELSE LET r == AnStmt(fx, P, env, items[i], acc.sym)
+         IN Forward(fx, P, env, items, i + 1, [items |-> Append(acc.items, r.it), sym |-> r.sym])
+Backward(fx, P, env, items, i, sym) ==
+    IF i < 1 THEN sym ELSE Backward(fx, P, env, items, i - 1, AnStmt(fx, P, env, items[i], sym).sym)
 
 RetName(f) == IF f.ret.k = "void" THEN "none" ELSE PrimName(f.ret)
-Pass(P, env, f, sym) ==
-    LET b == Forward(P, env, f.body, 1, [items |-> <<>>, sym |-> sym])
+Pass(fx, P, env, f, sym) ==
+    LET b == Forward(fx, P, env, f.body, 1, [items |-> <<>>, sym |-> sym])
     IN IF HasRes(f)
-       THEN LET r == An(P, env, f.res, RetName(f), b.sym) IN [items |-> b.items, sym |-> r.sym, res |-> r.e]
+       THEN LET r == An(fx, P, env, f.res, RetName(f), b.sym) IN [items |-> b.items, sym |-> r.sym, res |-> r.e]
        ELSE [items |-> b.items, sym |-> b.sym, res |-> [k |-> "none"]]
 
 (* -------------------- what analyzer + resolver do with P3's tree -------------------- *)
@@ -151,9 +166,9 @@ Untyped(e) == CASE e.k = "lit"   -> VT(e) \in {"none", "poison"}
                 [] e.k = "call"  -> Untyped(e.args[1])
                 [] OTHER -> FALSE
 Mismatch(P, e) ==
-    CASE e.k = "bin"  -> VT(e.l) # VT(e.r) \/ ~(LET v == TR!BinResult(e.op, <<VT(e.l)>>, <<VT(e.r)>>) IN v.ok \/ v.unc)
-                         \/ Mismatch(P, e.l) \/ Mismatch(P, e.r)
-      [] e.k = "as"   -> ~(LET v == TR!CastOK(<<VT(e.e)>>, <<e.t>>) IN v.ok \/ v.unc) \/ Mismatch(P, e.e)
+    \* (the decision tables of resolver.rs as transcribed in TypeRules.tla: MOperands, MCast)
+    CASE e.k = "bin"  -> TR!MOperands(e.op, <<VT(e.l)>>, <<VT(e.r)>>) # {} \/ Mismatch(P, e.l) \/ Mismatch(P, e.r)
+      [] e.k = "as"   -> TR!MCast(<<VT(e.e)>>, <<e.t>>) # {} \/ Mismatch(P, e.e)
       [] e.k = "paren" -> Mismatch(P, e.e)
       [] e.k = "call" -> VT(e.args[1]) # PrimName(ParamTy(FnOf(P, e.f).params[1])) \/ Mismatch(P, e.args[1])
       [] e.k = "idx"  -> VT(e.i) # "usize" \/ Mismatch(P, e.i)
@@ -169,11 +184,12 @@ ItemExprsA(it) == CASE it.k \in {"V", "S", "P"} -> <<it.e>>
                     [] it.k = "IG" -> <<it.c.l, it.c.r>>
                     [] OTHER -> <<>>
 
-AlgRun(P, f) ==
+\* fx = {}: the pinned algorithm; "left" / "cast": the candidate repairs (see the header)
+AlgRunFx(fx, P, f) ==
     LET env == Env(P, f)
-        p1  == Pass(P, env, f, <<>>)
-        s2  == Backward(P, env, p1.items, Len(p1.items), p1.sym)
-        p3  == Pass(P, env, f, s2)
+        p1  == Pass(fx, P, env, f, <<>>)
+        s2  == Backward(fx, P, env, p1.items, Len(p1.items), p1.sym)
+        p3  == Pass(fx, P, env, f, s2)
         its == p3.items
         exprs == UNION {SeqToSet(ItemExprsA(its[i])) : i \in 1..Len(its)} \cup (IF HasRes(f) THEN {p3.res} ELSE {})
         conflict == \E i \in 1..Len(its) : its[i].sv = "error"
@@ -186,4 +202,10 @@ AlgRun(P, f) ==
     IN [ok |-> ~conflict /\ ~untyped /\ ~mismatch,
         why |-> IF conflict THEN "conflict" ELSE IF untyped THEN "untyped" ELSE IF mismatch THEN "mismatch" ELSE "",
         types |-> types]
+AlgRun(P, f) == AlgRunFx({}, P, f)
+\* the smallest set of candidate repairs under which the algorithm accepts ("none": not even with both)
+RepairNeeded(P, f) == IF AlgRunFx({"left"}, P, f).ok THEN "left"
+                      ELSE IF AlgRunFx({"cast"}, P, f).ok THEN "cast"
+                      ELSE IF AlgRunFx({"left", "cast"}, P, f).ok THEN "left+cast"
+                      ELSE "none"
 =============================================================================
